@@ -264,11 +264,13 @@ func (s *c31Srv) ServeHTTP(w http.ResponseWriter, r *http.Request) {
 	s.log = append(s.log, rec)
 	s.mu.Unlock()
 
-	status, sent, aborted := s.respond(w, r, st, rec.Off)
-
-	s.mu.Lock()
-	s.log[n].Status, s.log[n].Sent, s.log[n].Abort = status, sent, aborted
-	s.mu.Unlock()
+	// the outcome is noted before the first byte goes out: the client may be
+	// back in Download (and Download may have returned) before this handler ends
+	s.respond(w, r, st, rec.Off, func(status, sent int, aborted bool) {
+		s.mu.Lock()
+		s.log[n].Status, s.log[n].Sent, s.log[n].Abort = status, sent, aborted
+		s.mu.Unlock()
+	})
 }
 
 func c31CloseConn(conn net.Conn, reset bool) {
@@ -278,38 +280,42 @@ func c31CloseConn(conn net.Conn, reset bool) {
 	conn.Close()
 }
 
-func (s *c31Srv) respond(w http.ResponseWriter, r *http.Request, st c31Step, off int64) (status, sent int, aborted bool) {
+func (s *c31Srv) respond(w http.ResponseWriter, r *http.Request, st c31Step, off int64, note func(status, sent int, aborted bool)) {
 	size := int64(len(s.content))
 	switch st.Kind {
 	case "status":
+		note(st.Code, 0, false)
 		w.WriteHeader(st.Code)
 		fmt.Fprintf(w, "status %d\n", st.Code)
-		return st.Code, 0, false
+		return
 	case "redirect":
 		other := "/alt"
 		if r.URL.Path == "/alt" {
 			other = "/dl"
 		}
+		note(st.Code, 0, false)
 		w.Header().Set("Location", other)
 		w.WriteHeader(st.Code)
-		return st.Code, 0, false
+		return
 	case "drop":
+		note(0, 0, true)
 		conn, _, err := w.(http.Hijacker).Hijack()
 		if err == nil {
 			c31CloseConn(conn, st.Reset)
 		}
-		return 0, 0, true
+		return
 	}
 
 	// serve
-	status = 200
+	status := 200
 	start := int64(0)
 	if st.Honour && off >= 0 {
 		if st.Shift == 0 && off > 0 && off >= size {
 			// what a correct server says to a range starting at or behind the end
+			note(416, 0, false)
 			w.Header().Set("Content-Range", fmt.Sprintf("bytes */%d", size))
 			w.WriteHeader(416)
-			return 416, 0, false
+			return
 		}
 		start = off
 		status = 206
@@ -352,11 +358,12 @@ func (s *c31Srv) respond(w http.ResponseWriter, r *http.Request, st c31Step, off
 	}
 
 	if !st.Abort {
+		note(status, len(body), false)
 		if !st.Chunked {
 			w.Header().Set("Content-Length", strconv.Itoa(len(body)))
 			w.WriteHeader(status)
 			w.Write(body)
-			return status, len(body), false
+			return
 		}
 		w.WriteHeader(status)
 		half := len(body) / 2
@@ -365,7 +372,7 @@ func (s *c31Srv) respond(w http.ResponseWriter, r *http.Request, st c31Step, off
 			f.Flush()
 		}
 		w.Write(body[half:])
-		return status, len(body), false
+		return
 	}
 
 	// aborted transfer: raw response on the hijacked connection
@@ -376,9 +383,10 @@ func (s *c31Srv) respond(w http.ResponseWriter, r *http.Request, st c31Step, off
 	if n > len(body) {
 		n = len(body)
 	}
+	note(status, n, true)
 	conn, _, err := w.(http.Hijacker).Hijack()
 	if err != nil {
-		return 0, 0, true
+		return
 	}
 	// safety net only (a client that stopped reading closes its end anyway)
 	conn.SetDeadline(time.Now().Add(2 * time.Minute))
@@ -405,7 +413,6 @@ func (s *c31Srv) respond(w http.ResponseWriter, r *http.Request, st c31Step, off
 	}
 	conn.Write(buf.Bytes())
 	c31CloseConn(conn, st.Reset)
-	return status, n, true
 }
 
 // ---------------------------------------------------------------------------
@@ -441,7 +448,8 @@ func c31Logs(log []c31Req) string {
 	return "[" + strings.Join(s, " ") + "]"
 }
 
-// c31LeftoverTail is the narrow predicate of known finding F-C31-1: the file is
+// c31LeftoverTail is the narrow predicate of finding F-C31-1 (fixed in snapd commit
+// 2de3084; the fingerprint is kept so that a regression is named): the file is
 // the whole expected content followed by a stale tail, and its length is exactly
 // the offset of a resumed request that the server answered with something else
 // than 206 (the restart from offset 0 which rewinds without truncating).
@@ -604,7 +612,13 @@ func c31Run(c c31Case) (o verifkit.Outcome, verr error) {
 	}
 
 	hs := &c31Srv{c: &c, content: content, garbage: garbage}
-	srv := httptest.NewServer(hs)
+	ln, err := net.Listen("tcp", "127.0.0.1:0")
+	if err != nil {
+		// no loopback port to be had: the environment, not the property
+		return verifkit.Outcome{Skip: true}, nil
+	}
+	srv := &httptest.Server{Listener: ln, Config: &http.Server{Handler: hs}}
+	srv.Start()
 	closed := false
 	closeSrv := func() {
 		if !closed {
@@ -787,7 +801,8 @@ func c31SafeRun(c c31Case) (o verifkit.Outcome, err error) {
 }
 
 // TestVerifC31Enum: every script of length <= L (2 quick, 3 thorough) over the 17
-// canonical behaviours × 7 partial files × LeavePartialOnError × {honest, repeat}.
+// canonical behaviours × 7 partial files × LeavePartialOnError, followed by a
+// correct server; scripts shorter than L also with the last step repeated for ever.
 func TestVerifC31Enum(t *testing.T) {
 	e := verifkit.NewEnum(t, "C31", "enum")
 	defer e.Done()
@@ -817,7 +832,7 @@ func TestVerifC31Enum(t *testing.T) {
 		for _, p := range c31EnumPartials() {
 			for _, leave := range []bool{false, true} {
 				for _, after := range []string{"honest", "repeat"} {
-					if after == "repeat" && (len(script) == 0 || (!verifkit.Thorough() && len(script) > 1)) {
+					if after == "repeat" && (len(script) == 0 || len(script) >= L) {
 						continue
 					}
 					n++
@@ -828,6 +843,9 @@ func TestVerifC31Enum(t *testing.T) {
 						After: after, Retries: 3, LeavePartial: leave, Cache: "off", Again: true}
 					o, err := c31SafeRun(c)
 					timeouts += o.Extra["goroutine_settle_timeouts"]
+					if o.Skip {
+						continue
+					}
 					if err != nil {
 						if v, ok := err.(*verifkit.Violation); ok && e.Known(v.Fingerprint) {
 							e.Case(o.Desc, o.NonTrivial, append(o.Labels, "known-"+v.Fingerprint)...)
